@@ -186,38 +186,78 @@ theorem C12_scipy_methods_generated :
     ["Radau", "BDF", "LSODA"].all (Generated.scipyMethods.contains ·) = true := by decide
 
 /-- **every history of the Simulator.**  Build `Simulator(model, use_jacobian=True)` on `c` and apply ANY
-    sequence of `update_parameter(s)` / `scale_parameter(s)` / protocol steps (`setPar`), `clear_results` /
-    `update_variable(s)` (`reinit`) and Jacobian calls by the integrator (`call t x`), with the glue as it is in
-    the current source.  Then (`GoodOuts`) every matrix the integrator receives is exactly what `jac_fn(t, x)` of
-    a Simulator freshly built on the model's content AT THAT MOMENT returns — for a well-formed model: `D` of
-    its current equations at the state passed and at its current parameter values (derived parameters and
-    computed coefficients included) — and the integrator runs without a Jacobian only if the conversion had
-    failed when the integrator was last built (on a content that differs from the current one by parameter
-    values only).  Generalises `C12_closure_follows_parameters` from one step to all histories; the case
-    distinction there (`now = c` or the value tuple differs) is discharged here: after parameter updates
-    only, an equal value tuple means the very same content (`ParUpd.same`). -/
+    sequence of `update_parameter(s)` / `scale_parameter(s)` / protocol steps (`setPar`), any other edit of the model
+    the Simulator holds (`edit c'`: `sim.model.update_reaction(...)`, `update_derived`, `add_*`, `remove_*` — afterwards
+    the content is `c'`), `clear_results` / `update_variable(s)` (`reinit`) and Jacobian calls by the integrator
+    (`call t x`), with the glue as it is in the current source.  Then (`GoodOuts`) every matrix the integrator
+    receives is exactly what `jac_fn(t, x)` of a Simulator freshly built on the model's content AT THAT MOMENT returns —
+    for a well-formed model: `D` of its current equations at the state passed and at its current parameter values
+    (derived parameters and computed coefficients included) — and the integrator runs without a Jacobian only if a
+    conversion failed when the integrator was built.  Generalises `C12_closure_follows_parameters` from one step to
+    all histories and from parameter updates to all edits (after `fix: recompile the Jacobian when the model was
+    edited`, F-C12-5: the closure watches the model's cache object, which every editing method invalidates). -/
 theorem C12_sim_history (c : SContent) (ops : List SimOp) (s0 s : SimState) (outs : List SimOut)
     (h0 : simInitG Generated.glue c = .ok s0) (hr : runG Generated.glue s0 ops = .ok (s, outs)) :
     GoodOuts c ops outs :=
   sim_history Generated.glue C12_glue_generated c ops s0 s outs h0 hr
 
-/-- with the facts of the current source the parameterised closure is the closure of `C12_closure_follows_parameters`,
-    and the constructor never raises because of the conversion: it installs the closure or falls back -/
-theorem C12_glue_refines (c now : SContent) (cl : JacClosure) (t : Rat) (xs : List Rat) :
-    cl.callG Generated.glue now t xs = cl.call now t xs ∧
-    installG Generated.glue true c = .ok (installJac c) ∧ installG Generated.glue false c = .ok none :=
-  ⟨callG_eq_call _ C12_glue_generated cl now t xs, installG_eq _ C12_glue_generated c, by
-    unfold installG; simp [(flags_of_ok _ C12_glue_generated).2.2.2.2.2.2.1]⟩
+/-- why watching the parameter VALUES alone (the closure before the repair of F-C12-5) was enough for the Simulator's
+    own methods: after parameter updates only (`ParUpd`: same declarations, a parameter keeps its value, gets another
+    one, or — if it was given by an initial assignment — gets a plain one), an equal tuple of plain-parameter values
+    means the very same content, so an unchanged tuple never hides a change. -/
+theorem C12_values_determine_content (c now : SContent) (h : ParUpd c now) (vn pn vn' pn' : List Name)
+    (vals : List Rat) (hc : jacArgs c = .ok (vn, pn, vals)) (hn : jacArgs now = .ok (vn', pn', vals)) : now = c :=
+  ParUpd.same c now h vn pn vn' pn' vals hc hn
 
-/-- each repair of the glue is needed: without recompiling, without remembering the new values, or with the
-    remembered instead of the current values passed, the facts are rejected -/
+/-- … and `ParUpd` is what `update_parameter` histories produce -/
+theorem C12_setPar_is_parUpd (c : SContent) (kvs : List (Name × Rat)) :
+    ParUpd c (kvs.foldl (fun c kv => c.setPar kv.1 kv.2) c) := by
+  suffices h : ∀ now, ParUpd c now → ParUpd c (kvs.foldl (fun c kv => c.setPar kv.1 kv.2) now) from h c (ParUpd.refl c)
+  induction kvs with
+  | nil => intro now h; exact h
+  | cons kv kvs ih => intro now h; exact ih _ (ParUpd.step c now kv.1 kv.2 h)
+
+/-- with the facts of the current source the constructor never raises because of the conversion: it installs the
+    closure or falls back; without `use_jacobian` nothing is compiled -/
+theorem C12_glue_refines (c : SContent) :
+    installG Generated.glue true c = .ok (installJac c) ∧ installG Generated.glue false c = .ok none :=
+  ⟨installG_eq _ C12_glue_generated c, by
+    unfold installG; simp [(glueOk_facts _ C12_glue_generated).2.2.2.2.2.2.2.2.2.2.2.2.2]⟩
+
+/-- each repair of the glue is needed: without recompiling, without remembering the new values, with the
+    remembered instead of the current values passed, with a narrower `except`, with names from another source, or
+    without watching the model's cache object, the facts are rejected -/
 theorem C12_glue_repairs_needed :
     GlueOk { expectedGlue with recompileOnChange := false } = false ∧
     GlueOk { expectedGlue with storesValues := false } = false ∧
     GlueOk { expectedGlue with callArgs := ["t", "x", "list(compiled)"] } = false ∧
     GlueOk { expectedGlue with catchesAll := false } = false ∧
-    GlueOk { expectedGlue with lambdifyArgs := ["'time'", "model.get_variable_names()", "model.get_parameter_names()"] } = false := by
+    GlueOk { expectedGlue with lambdifyArgs := ["'time'", "model.get_variable_names()", "model.get_parameter_names()"] } = false ∧
+    GlueOk glueBeforeWatch = false := by
   decide
+
+/-- F-C12-5, the witness: with the glue as it was before the repair (parameter values watched, the model not), replace
+    the rate law of the Michaelis–Menten witness's second reaction (`sim.model.update_reaction`) and let the integrator
+    call the Jacobian: it gets the matrix of the OLD model, which is not the Jacobian of the current one; with the
+    repaired glue it gets the current one. -/
+theorem C12_edit_needs_watch :
+    histOuts glueBeforeWatch witnessMM [.edit witnessMMEdited, .call 0 [1, 2]] = some [.upd, outOf (jacAt witnessMM [1, 2])] ∧
+    histOuts expectedGlue witnessMM [.edit witnessMMEdited, .call 0 [1, 2]] = some [.upd, outOf (jacAt witnessMMEdited [1, 2])] ∧
+    jacAt witnessMM [1, 2] ≠ jacAt witnessMMEdited [1, 2] ∧ (jacAt witnessMMEdited [1, 2]).isSome = true :=
+  ⟨by decide +kernel, by decide +kernel, by decide +kernel, by decide +kernel⟩
+
+/-- **exception safety of the closure** (seed C12-r4-1's direction): the model is edited into one that does not convert
+    (a rate law that takes `time`), the integrator calls the Jacobian — the compilation raises, the exception escapes —
+    and calls it again (the next `simulate`).  With the glue of the current source the closure remembers nothing from
+    the failed attempt: the second call compiles again and raises again.  With the two statements of the recompile
+    branch in the other order (`compileBeforeStore := false`: remember first, compile then) the second call is
+    answered with the matrix compiled for the OLD model. -/
+theorem C12_failed_recompile_not_remembered :
+    histOuts expectedGlue witnessMM [.edit witnessMMTime, .call 0 [1, 2], .call 0 [1, 2]] = some [.upd, .raised, .raised] ∧
+    histOuts glueStoreFirst witnessMM [.edit witnessMMTime, .call 0 [1, 2], .call 0 [1, 2]]
+      = some [.upd, .raised, outOf (jacAt witnessMM [1, 2])] ∧
+    jacAt witnessMMTime [1, 2] = none ∧ GlueOk glueStoreFirst = false :=
+  ⟨by decide +kernel, by decide +kernel, by decide +kernel, by decide⟩
 
 /-- the equations mention only variable symbols, plain-parameter symbols and data symbols (never
     `time`, a reaction, a derived quantity or a library function's own argument name) -/
@@ -276,8 +316,9 @@ example : evalS (fun _ => 2) (D "s" (.div (.mul (.sym "vmax") (.sym "s")) (.add 
 -- and without recompiling (the unrepaired closure) the second matrix is the stale one
 example : (do let s0 ← simInitG Generated.glue witnessMM
               let r ← runG Generated.glue s0 [.call 0 [1, 2], .setPar "c2" 7, .call 0 [1, 2], .setPar "c2" 5,
-                                              .call 0 [1, 2], .reinit, .call 0 [1, 2]]
-              pure (r.2.map fun (o : SimOut) => (o.getD none).isSome) : Except Err (List Bool)) = .ok [true, false, true, false, true, false, true] := by
+                                              .call 0 [1, 2], .reinit, .call 0 [1, 2], .edit witnessMMEdited, .call 0 [1, 2]]
+              pure (r.2.map fun (o : SimOut) => match o with | .mat _ => true | _ => false) : Except Err (List Bool)) =
+            .ok [true, false, true, false, true, false, true, false, true] := by
   decide +kernel
 
 end Mxl.C12
